@@ -9,6 +9,7 @@ import struct
 import clauses as C
 import family
 import gen
+import hints as H
 from tlcrun import run_tlc, stats_of, require_clean
 from vcommon import Report, digest, die, run_dir, seed
 
@@ -148,13 +149,19 @@ def run_case(case):
 
     def ev(form, orig, fn, semantic):
         e = {"form": form, "orig": orig, "back": dict(C.EMPTY), "exc": "none", "exact": True, "eq": True, "ok": True, "hints": [], "names": [], "g": 0,
-             "groups": ["serial"], "_strings": None}
+             "groups": ["serial"], "_strings": None, "infeas": dict(H.NONE), "rounded": bool(d["wild"])}
         try:
             back, extra = fn()
             e["back"] = C.pcontract(back)
             e.update(extra)
         except Exception as ex:  # noqa: BLE001
-            e["exc"] = type(ex).__name__ + ":" + str(ex)[:80].replace("\n", " ")
+            e["exc"] = "ValueError" if isinstance(ex, ValueError) else type(ex).__name__
+            e["_msg"] = str(ex)[:120]
+            e["names"] = sorted(C.cvars(orig))
+            if e["exc"] == "ValueError" and C.contract_ok(orig):
+                ic = H.infeas_cert(orig["a"] + orig["g"], e["names"], box=False)
+                if ic is not None:
+                    e["infeas"] = H.strip(ic)
             evs.append(e)
             return
         e["ok"] = C.contract_ok(e["back"]) and C.contract_ok(orig)
